@@ -430,6 +430,22 @@ pub fn tame_temporal(rng: &mut Rng, dt: &DataType, v: &mut Val) {
     }
 }
 
+/// Move a (tamed) timestamp 9000 years ahead: five-digit years that chrono still formats.
+pub fn far_future(dt: &DataType, v: &mut Val) {
+    if let (DataType::Timestamp(u, _), Val::Int(x)) = (dt, &*v) {
+        let per: i128 = match u {
+            TimeUnit::Second => 1,
+            TimeUnit::Millisecond => 1_000,
+            TimeUnit::Microsecond => 1_000_000,
+            TimeUnit::Nanosecond => return,
+        };
+        let nv = *x + 9000 * 31_556_952 * per;
+        if nv <= i64::MAX as i128 {
+            *v = Val::Int(nv);
+        }
+    }
+}
+
 pub fn tame_finite(rng: &mut Rng, dt: &DataType, v: &mut Val) {
     match (dt, &*v) {
         (DataType::Float64, Val::F64(b)) if !f64::from_bits(*b).is_finite() => {
@@ -443,6 +459,26 @@ pub fn tame_finite(rng: &mut Rng, dt: &DataType, v: &mut Val) {
         }
         _ => {}
     }
+}
+
+// ------------------------------------------------------------------ shared: watchdog
+
+/// Run `f` (under the panic monitor) on its own thread and give up after `secs` seconds:
+/// `None` means it did not return. Wall-clock is not a verdict: callers count a timeout as
+/// *inconclusive*. The abandoned thread keeps running until the process exits.
+pub fn with_watchdog<T: Send + 'static>(
+    secs: u64,
+    f: impl FnOnce() -> T + Send + 'static,
+) -> Option<Result<T, vcore::mon::PanicInfo>> {
+    let (tx, rx) = std::sync::mpsc::channel();
+    let h = std::thread::Builder::new().name("c17-reader".into()).spawn(move || {
+        let r = vcore::guard(f);
+        let _ = tx.send(r);
+    });
+    if h.is_err() {
+        return None;
+    }
+    rx.recv_timeout(std::time::Duration::from_secs(secs)).ok()
 }
 
 // ------------------------------------------------------------------ shared: oracle self-test
@@ -537,7 +573,7 @@ pub fn diff_val(dt: &DataType, exp: &Val, got: &Val) -> Option<(String, &'static
     if canon(exp) == canon(got) {
         return None;
     }
-    let here = |k: &'static str| Some((gens::type_class(dt), k));
+    let here = |k: &'static str| Some((family(dt), k));
     match (exp, got) {
         (Val::Null, _) | (_, Val::Null) => here("null"),
         (Val::List(a), Val::List(b)) => {
@@ -589,18 +625,14 @@ pub fn diff_val(dt: &DataType, exp: &Val, got: &Val) -> Option<(String, &'static
             }
             here("value")
         }
-        _ => match dt {
-            Dictionary(_, v) => Some((gens::type_class(v), "value")),
-            RunEndEncoded(_, v) => Some((gens::type_class(v.data_type()), "value")),
-            _ => here("value"),
-        },
+        _ => here("value"),
     }
 }
 
 /// Compare two logical columns; `Some((row, leaf class, kind))` at the first difference.
 pub fn diff_col(dt: &DataType, exp: &[Val], got: &[Val]) -> Option<(usize, String, &'static str)> {
     if exp.len() != got.len() {
-        return Some((exp.len().min(got.len()), gens::type_class(dt), "row-count"));
+        return Some((exp.len().min(got.len()), family(dt), "row-count"));
     }
     for (i, (e, g)) in exp.iter().zip(got).enumerate() {
         if let Some((c, k)) = diff_val(dt, e, g) {
@@ -608,6 +640,104 @@ pub fn diff_col(dt: &DataType, exp: &[Val], got: &[Val]) -> Option<(usize, Strin
         }
     }
     None
+}
+
+/// Type *family* used in signatures: no widths, units, precisions, key types or field names.
+/// Encodings and containers are named by kind; the two degenerate shapes that behave
+/// differently in the formats (negative decimal scale, zero-width fixed binary) are kept apart.
+pub fn family(dt: &DataType) -> String {
+    use DataType::*;
+    match dt {
+        Null => "Null",
+        Boolean => "Boolean",
+        Int8 | Int16 | Int32 | Int64 | UInt8 | UInt16 | UInt32 | UInt64 => "Int",
+        Float16 | Float32 | Float64 => "Float",
+        Utf8 | LargeUtf8 | Utf8View => "String",
+        Binary | LargeBinary | BinaryView => "Binary",
+        FixedSizeBinary(0) => "FixedSizeBinary(0)",
+        FixedSizeBinary(_) => "FixedSizeBinary",
+        Date32 | Date64 => "Date",
+        Time32(_) | Time64(_) => "Time",
+        Timestamp(_, _) => "Timestamp",
+        Duration(_) => "Duration",
+        Interval(_) => "Interval",
+        Decimal32(_, s) | Decimal64(_, s) | Decimal128(_, s) | Decimal256(_, s) => {
+            if *s < 0 { "Decimal(neg-scale)" } else { "Decimal" }
+        }
+        List(_) | LargeList(_) | ListView(_) | LargeListView(_) | FixedSizeList(_, _) => "List",
+        Struct(_) => "Struct",
+        Map(_, _) => "Map",
+        Union(_, _) => "Union",
+        Dictionary(_, _) => "Dict",
+        RunEndEncoded(_, _) => "REE",
+    }
+    .to_string()
+}
+
+/// The family of an error message: wrapper prefixes ("Parser error: ", "whilst decoding field
+/// 'x': ", "Error parsing column 3 at line 7: " ...), quoted text, parenthesised payloads and
+/// digits are removed; what remains is the first sentence that says what went wrong. A reader
+/// choking on text that starts with a word of three or more letters (e.g. an error message that
+/// was written as data) keeps that word.
+pub fn err_family(m: &str) -> String {
+    // `failed to parse "<text>" as <type>[(params)][: cause]` -- the text may contain quotes
+    if let Some(p) = m.find("failed to parse \"") {
+        let rest = &m[p + 17..];
+        if let Some(q) = rest.rfind("\" as ") {
+            let text = rest[..q].trim_start_matches(['+', '-']);
+            let word: String = text.chars().take_while(|c| c.is_ascii_alphabetic()).collect();
+            let word = if word.len() >= 3 { word } else { String::new() };
+            let ty = &rest[q + 5..];
+            let ty = ty.split([':', '(']).next().unwrap_or("");
+            return format!("failed to parse {word}_ as {}", strip_digits(ty.trim()));
+        }
+    }
+    // quoted text -> _, (payload) -> removed
+    let mut out = String::new();
+    let mut q: Option<char> = None;
+    let mut depth = 0;
+    for c in m.chars() {
+        match q {
+            Some(qc) => {
+                if c == qc {
+                    q = None;
+                }
+            }
+            None => match c {
+                '\'' | '"' => {
+                    q = Some(c);
+                    out.push('_');
+                }
+                '(' => depth += 1,
+                ')' if depth > 0 => depth -= 1,
+                _ if depth > 0 => {}
+                _ => out.push(c),
+            },
+        }
+    }
+    let out = strip_digits(&out);
+    const WRAPPERS: [&str; 16] = [
+        "parser error", "avro error", "arrow", "invalid argument error", "invalid argument", "json error",
+        "csv error", "schema error", "external error", "io error", "compute error", "cast error", "parse error",
+        "general error", "external format error", "not yet implemented",
+    ];
+    for seg in out.split(": ") {
+        let s = seg.trim().trim_end_matches('.');
+        let l = s.to_ascii_lowercase();
+        if s.is_empty()
+            || WRAPPERS.contains(&l.as_str())
+            || l.starts_with("whilst decoding field")
+            || l.starts_with("error parsing column")
+            || l.starts_with("error processing row")
+        {
+            continue;
+        }
+        let s: String = s.split(". ").next().unwrap_or(s).chars().take(90).collect();
+        // "expected [ got null" / "expected { got null": one family
+        let s = s.replace("expected [ got", "expected container got").replace("expected { got", "expected container got");
+        return s.trim().to_string();
+    }
+    out.chars().take(90).collect()
 }
 
 /// Stable part of an error message: quoted substrings and digits removed.
